@@ -24,6 +24,9 @@ def _import_target(qual):
     return v
 
 
+_SHARED = {}
+
+
 def build(desc):
     import numpy as np
     k = desc['k']
@@ -37,6 +40,10 @@ def build(desc):
         return _const(desc['v'])
     if k == 'none':
         return None
+    if k == 'shared':
+        if desc['key'] not in _SHARED:
+            _SHARED[desc['key']] = build(desc['d'])
+        return _SHARED[desc['key']]
     if k == 'ndarray':
         return np.array(_plain(desc['v']), dtype=float)
     if k == 'list':
@@ -110,6 +117,8 @@ class Stub:
     def _mk(self, m, spec):
         def f(**kw):
             self.calls.append((m, dict(kw)))
+            kw = {k: v for k, v in kw.items()
+                  if k not in self._desc.get('ignores', ())}
             key = (m, _tkey(kw))
             if key in self._table:
                 return self._table[key]
@@ -375,6 +384,7 @@ def run_job(job):
     global RTOL
     out = {}
     RTOL = job.get('rtol', 1e-9)
+    _SHARED.clear()
     env = clause_env(job['verif_root'])
     try:
         args = {n: build(job['args'][n]) for n in job['order']}
